@@ -482,12 +482,16 @@ static Verdict c05_pair(const Case& c) {
     }
   }
   if (singular) { Verdict S = Verdict::skip("singular-within-one-ulp"); return S; }
-  const double kappa = k2 + kc * (1.0 + k1);
+  // kappa = k2 + kc: the forward relation is expected to deliver its result to a few ulps (forward error), which the inverse amplifies by kc; the inverse's own
+  // roundings act like perturbations of its arguments (k2 + kc).  k1 (sensitivity of the forward relation to its operands) is measured and reported but NOT allowed
+  // for: a forward relation that is merely backward stable (cp = gamma cv rounded, then cp - cv) loses the operand to cancellation - the pinned tree needs no such
+  // allowance (3 x 24.8 million thorough cases), and a change that introduces it is a violation of "to within a few ulps"
+  const double kappa = k2 + kc;
   double worst = 0; int wq = 0;
   for (int q = 0; q < na; q++) { const double e = (double)(std::fabs(a2[q] - a[q]) / ulp_at(nt, scale_of(q))); if (!(e <= worst)) { worst = e; wq = q; } }
   const double tol = 4.0 * (1.0 + kappa);
   if (!(worst <= tol))
-    return Verdict::fail(fmt("%s then %s [%s] does not return the original %s: component %d is %s instead of %s (%.4g ulp; allowed 4(1+kappa) = %.4g with measured conditioning kappa = k2 + kc(1+k1) = %.3g + %.3g(1+%.3g)); operands %s, intermediate %s",
+    return Verdict::fail(fmt("%s then %s [%s] does not return the original %s: component %d is %s instead of %s (%.4g ulp; allowed 4(1+kappa) = %.4g with measured conditioning kappa = k2 + kc = %.3g + %.3g; forward sensitivity k1 = %.3g); operands %s, intermediate %s",
                              r1->name, r2->name, ntinfo(nt).name, r1->args[P.target].name, wq, decld(a2[wq]).c_str(), decld(a[wq]).c_str(), worst, tol, k2, kc, k1, show_args(r1, E).c_str(), comps_dec(E.out, nc).c_str()));
   V.cls += kappa <= 16 ? ";well-conditioned" : kappa <= 4096 ? ";kappa<=4096" : ";ill-conditioned";
   V.nontrivial = kappa <= 16;
@@ -896,8 +900,8 @@ int main(int argc, char** argv) {
     Sub s; s.name = "c05.inverse"; s.property = "C05"; s.instances = (int)g_pairs.size(); s.n_quick = 150; s.n_thorough = 4000; s.gen = gen_c05; s.run = c05_pair;
     s.instance_name = [](int inst) { const Pair& p = g_pairs[(size_t)inst]; return std::string(g_rel[p.nt][(size_t)p.r1]->name) + " -> " + g_rel[p.nt][(size_t)p.r2]->name + "/" + ntinfo(p.nt).name; };
     s.rule = "pairs derived from the declared signatures: constructor/member C(..A..) with A(..C..) over the same remaining arguments (1 to 4 arguments), operator pairs by algebra (a+b<->c-b, a*b<->c/b, a/b<->c*b, and the forms solving "
-             "for b), one-argument pairs of equal shape and the planar embedding 2-D -> 3-D -> 2-D (bit-exact); positive finite scalar operands over many binades; oracle: A(C(a,b..),b..) = a within 4(1+kappa) ulp with kappa = k2 + kc(1+k1) the measured "
-             "amplification of one-ulp perturbations (kc: of the intermediate, k2: of the other arguments of the inverse, k1: of the operands of the forward relation); non-trivial: kappa <= 16";
+             "for b), one-argument pairs of equal shape and the planar embedding 2-D -> 3-D -> 2-D (bit-exact); positive finite scalar operands over many binades; oracle: A(C(a,b..),b..) = a within 4(1+kappa) ulp with kappa = k2 + kc the measured "
+             "amplification of one-ulp perturbations (kc: of the intermediate, k2: of the other arguments of the inverse; the forward relation must deliver its result to a few ulps - no allowance for mere backward stability); non-trivial: kappa <= 16";
     subs.push_back(s);
   }
   auto vgen = [](const std::vector<Ref>& L, bool zero_ok, int extra_i, bool with_scale) {
